@@ -24,24 +24,23 @@ def sched_tie(pid, scen, quick, thorough, rand=5):
 
 PROPS['C06'] = dict(
     target='Props/C06',
-    theorems=['C06_seq', 'C06_seq_revert', 'C06_conc', 'C06_conc_locked', 'C06_conc_from', 'C06_conc_fresh_refuted'],
+    theorems=['C06_seq', 'C06_seq_revert', 'C06_conc', 'C06_conc_locked', 'C06_conc_always_locked', 'C06_conc_from'],
     ties=[sched_tie('C06', 'c06', 60, 3000)],
     rule=CONC_RULE + '; C06 scenarios: 2 and 3 spenders of one source whose balance covers one (plain postings; allowing overdraft up to 50), unbounded-overdraft and force controls, '
          'non-forced revert racing a spend of the funds it needs, opposite transfers (deadlock + forgeLog retry). Monitor (independent of the model): right after every COMMIT the committed '
          'balance of the committing request\'s bounded non-world source is >= -allowance (0 / X; unbounded and forced requests are not checked).',
     explanation='Proved: C06_seq (any postings request accepted without force never takes a non-world account below min(0, its balance): induction over the postings list on Core.feasible), '
                 'C06_seq_revert (a non-forced revert is accepted only if every non-world source of the reversed postings stays >= 0 on the balances read). CONCURRENT, for ALL schedules and any '
-                'number of writers (induction over the schedule on Ledger/Conc.v, invariants ConcProofs.invA / invB): C06_conc -- if the (account, asset) row of every bounded source exists before the '
-                'race, after each COMMIT the committed balance of the committing request\'s source is >= -allowance (two-phase locking: between GetBalances -- row lock taken, balance read = committed '
-                'balance -- and COMMIT no other writer changes the row, so the funds check ran on the balance the COMMIT applies to); C06_conc_locked -- the same for every COMMIT that held the lock, with no '
-                'hypothesis on the state; C06_conc_from -- from any state satisfying the invariants. WITHOUT the hypothesis the statement is REFUTED for never-used (account, asset) pairs: '
-                'C06_conc_fresh_refuted (vm_compute witness: two "send 50 allowing overdraft up to 50" on a pair without accounts_volumes row; the second GetBalances waits '
-                'on the in-flight zero row, skips it (ON CONFLICT DO NOTHING), its SELECT FOR UPDATE runs on the pre-wait snapshot, sees no row, locks nothing, reports 0: alice ends at -100); the '
-                'same schedule replayed on the real stack is the known finding [c06-overdrawn-fresh-pair]. Tie: exact outcome + event-trace match of model and real stack on every explored schedule.',
+                'number of writers (induction over the schedule on Ledger/Conc.v, invariants ConcProofs.invA / invB): C06_conc -- after each COMMIT the committed balance of the committing request\'s '
+                'bounded source is >= -allowance, for existing and never-used (account, asset) pairs alike, with no hypothesis (two-phase locking: between GetBalances -- row lock taken, balance read = committed '
+                'balance -- and COMMIT no other writer changes the row, so the funds check ran on the balance the COMMIT applies to; C06_conc_always_locked: every bounded request holds that lock); '
+                'C06_conc_from -- from any state satisfying the invariants. History: on the code as found the statement was REFUTED for never-used pairs (witness schedule reproduced on the real stack, '
+                'known finding KF-C06-fresh-pair-overdraft [c06-overdrawn-fresh-pair]); REPAIRED by fixes/02-getbalances-fresh-pair.diff (second SELECT ... FOR UPDATE for the rows the first statement did not '
+                'return); model, theorem and tie follow the repaired code, the monitor stays armed. Tie: exact outcome + event-trace match of model and real stack on every explored schedule.',
     trusted=CONC_TRUST,
     technique='Coq proof (sequential: induction over postings; concurrent: interleaving model with vm_compute refutation witness) + deterministic schedule exploration of the real stack on pgsem with exact comparison against the extracted model',
     level_text='Sequential no-overdraft theorem for every postings request and the revert check (Core.v); concurrent theorem for ALL schedules and any number of writers on the interleaving model Ledger/Conc.v '
-               '(2PL invariant) when the source rows exist; refuted for never-used (account, asset) pairs by a witness schedule reproduced on the real code; model tied to the real stack by exact comparison on '
+               '(2PL invariant), existing and never-used pairs (the latter after the GetBalances repair); model tied to the real stack by exact comparison on '
                'exhaustively explored bounded schedules (<= 2 deviations, 2-3 writers) + random schedules.',
     level_note='Trusted: Coq kernel, extraction, pgsem\'s transcription of PostgreSQL READ COMMITTED locking (Appendix C), the cooperative scheduler. The model covers single-posting requests (create plain / overdraft / unbounded / force, revert); multi-posting requests are covered sequentially (C06_seq) only. '
                'Real lock timing and deadlock-victim choice are modelled, not observed.',
@@ -75,12 +74,14 @@ PROPS['C15']['explanation'] += (' CONCURRENT: 2-3 racing reverts of one transact
 PROPS['C15']['trusted'] = PROPS['C15']['trusted'] + CONC_TRUST
 
 PROPS['C16']['ties'].append(sched_tie('C16', 'c16', 100, 3000))
-PROPS['C16']['theorems'] += ['C16_conc_ids_unique', 'C16_conc_ids_unique_from', 'C16_conc_log_order_locked', 'C16_conc_log_order_locked_from', 'C16_conc_tx_order_refuted', 'C16_conc_log_order_unlocked_refuted']
+PROPS['C16']['theorems'] += ['C16_conc_ids_unique', 'C16_conc_ids_unique_from', 'C16_conc_log_order_locked', 'C16_conc_log_order_locked_from', 'C16_conc_nonoverlapping_order', 'C16_conc_tx_order_refuted', 'C16_conc_log_order_unlocked_refuted']
 PROPS['C16']['explanation'] += (' CONCURRENT: C16_conc_ids_unique -- for ALL schedules of any number of writers (induction over the schedule) transaction ids and log ids of committed and in-flight rows are '
                                'pairwise distinct and below the sequence. "A later COMMIT never receives a smaller id" is REFUTED for transaction ids even with HASH_LOGS=SYNC (C16_conc_tx_order_refuted: '
                                'InsertTransaction draws its id before InsertLog takes the advisory lock) and for log ids without the lock (C16_conc_log_order_unlocked_refuted); both witnesses are reproduced on '
                                'the real stack (known findings [c16-txid-commit-order], [c16-logid-commit-order-nolock]). PROVED for ALL schedules (C16_conc_log_order_locked): with HASH_LOGS=SYNC (advisory lock taken '
-                               'before nextval and held until COMMIT) the log ids published by successive COMMITs are strictly increasing.' + _sched_note)
+                               'before nextval and held until COMMIT) the log ids published by successive COMMITs are strictly increasing; C16_conc_nonoverlapping_order: requests that do not overlap get increasing '
+                               'transaction ids (nextval is monotone in call order) -- monitor [c16-nonoverlapping-order] on every schedule incl. scenario c16-nonoverlap (a third request issued after two overlapping '
+                               'ones answered, reusing one of their pooled connections); pgsem implements CREATE SEQUENCE ... CACHE n per session, so a cached sequence (seeded N-C16) is caught.' + _sched_note)
 PROPS['C16']['trusted'] = PROPS['C16']['trusted'] + CONC_TRUST
 
 # C09, concurrent part: the same schedule exploration with HASH_LOGS=SYNC; the chain monitor (every stored hash chains from the
